@@ -107,7 +107,7 @@ func (d *decoder) decodeCompactBytes(v value) {
 }
 
 func (d *decoder) decodeArray(v value, elemType reflect.Type, decodeElem decodeFunc) {
-	if n := d.readInt32(); n < 0 {
+	if n := d.readInt32(); n < 0 || d.lengthOutOfBounds(int(n)) {
 		v.setArray(array{})
 	} else {
 		a := makeArray(elemType, int(n))
@@ -119,7 +119,7 @@ func (d *decoder) decodeArray(v value, elemType reflect.Type, decodeElem decodeF
 }
 
 func (d *decoder) decodeCompactArray(v value, elemType reflect.Type, decodeElem decodeFunc) {
-	if n := d.readUnsignedVarInt(); n < 1 {
+	if n := d.readUnsignedVarInt(); n < 1 || d.lengthOutOfBounds(toLength(n-1)) {
 		v.setArray(array{})
 	} else {
 		a := makeArray(elemType, int(n-1))
@@ -148,7 +148,33 @@ func (d *decoder) discard(n int) {
 	d.setError(err)
 }
 
+// toLength converts an unsigned length read from the wire to an int; values
+// that no frame can hold (frame sizes are 32 bits) are mapped to -1 so they
+// fail the bounds check instead of wrapping around.
+func toLength(n uint64) int {
+	if n > math.MaxInt32 {
+		return -1
+	}
+	return int(n)
+}
+
+// lengthOutOfBounds validates a length or element count read from the wire
+// against the number of bytes remaining in the frame: every element and every
+// byte announced must still be read from those bytes, so a negative or larger
+// value can only come from a malformed frame. The decoder is put in an error
+// state in that case, before anything gets allocated for the bogus length.
+func (d *decoder) lengthOutOfBounds(n int) bool {
+	if n < 0 || n > d.remain {
+		d.setError(fmt.Errorf("invalid length %d with %d bytes remaining in the frame: %w", n, d.remain, io.ErrUnexpectedEOF))
+		return true
+	}
+	return false
+}
+
 func (d *decoder) read(n int) []byte {
+	if d.lengthOutOfBounds(n) {
+		return nil
+	}
 	b := make([]byte, n)
 	n, err := io.ReadFull(d, b)
 	b = b[:n]
@@ -248,7 +274,7 @@ func (d *decoder) readCompactString() string {
 	if n := d.readUnsignedVarInt(); n < 1 {
 		return ""
 	} else {
-		return bytesToString(d.read(int(n - 1)))
+		return bytesToString(d.read(toLength(n - 1)))
 	}
 }
 
@@ -272,7 +298,7 @@ func (d *decoder) readCompactBytes() []byte {
 	if n := d.readUnsignedVarInt(); n < 1 {
 		return nil
 	} else {
-		return d.read(int(n - 1))
+		return d.read(toLength(n - 1))
 	}
 }
 
@@ -427,11 +453,14 @@ func structDecodeFuncOf(typ reflect.Type, version int16, flexible bool) decodeFu
 		if flexible {
 			// See https://cwiki.apache.org/confluence/display/KAFKA/KIP-482%3A+The+Kafka+Protocol+should+Support+Optional+Tagged+Fields
 			// for details of tag buffers in "flexible" messages.
-			n := int(d.readUnsignedVarInt())
+			n := toLength(d.readUnsignedVarInt())
+			if d.lengthOutOfBounds(n) {
+				return
+			}
 
 			for i := 0; i < n; i++ {
 				tagID := int(d.readUnsignedVarInt())
-				size := int(d.readUnsignedVarInt())
+				size := toLength(d.readUnsignedVarInt())
 
 				f, ok := taggedFields[tagID]
 				if ok {
